@@ -80,6 +80,35 @@ class QWorld:
         else:
             self.ev("exit", c=c, how="ret", verr=False)
 
+    async def consumer2(self, c):
+        """One task holding two items at once (nested blocks); the inner block is reported as consumer c + 50."""
+        state = 0
+        try:
+            async with self.q as a:
+                state = 1
+                self.ev("enter", c=c, item=index_of(a))
+                try:
+                    async with self.q as b:
+                        state = 2
+                        self.ev("enter", c=c + 50, item=index_of(b))
+                        fut = self.loop.create_future()
+                        self.gates[c] = fut
+                        out = await fut
+                        if out == "exc":
+                            raise Boom()
+                finally:
+                    if state == 2:
+                        self.ev("exit", c=c + 50, how="nested", verr=False)
+                        state = 1
+        except asyncio.CancelledError:
+            self.ev("exit", c=c, how="canc", verr=False) if state else self.ev("cwait", c=c)
+        except Boom:
+            self.ev("exit", c=c, how="exc", verr=False)
+        except (ValueError, KeyError) as e:
+            self.ev("exit", c=c, how="err", verr=True)
+        else:
+            self.ev("exit", c=c, how="ret", verr=False)
+
     async def joiner(self, j):
         self.ev("jbegin", j=j)
         await self.q.join()
@@ -94,7 +123,7 @@ class QWorld:
             self.ev("put", i=i)
         elif o == "consume":
             c = op["c"]
-            self.cons[c] = self.loop.create_task(self.consumer(c), name="C%d" % c)
+            self.cons[c] = self.loop.create_task(self.consumer2(c) if op.get("nested") else self.consumer(c), name="C%d" % c)
             self.ev("consume", c=c)
         elif o == "join":
             j = len(self.joins)
